@@ -17,7 +17,8 @@ N2 == N * N
 RECURSIVE MulD(_, _, _)
 MulD(a, b, m) == IF b = 0 THEN 0
                  ELSE LET h == MulD((a + a) % m, b \div 2, m) IN IF b % 2 = 1 THEN (h + a) % m ELSE h
-Mul(a, b, m) == MulD(a % m, b % m, m)
+Mul(a, b, m) == IF m <= 46340 THEN ((a % m) * (b % m)) % m          \* the product fits 31 bits (N = 35, 143)
+               ELSE MulD(a % m, b % m, m)
 RECURSIVE PowD(_, _, _)
 PowD(a, e, m) == IF e = 0 THEN 1 % m
                  ELSE LET s == PowD(Mul(a, a, m), e \div 2, m) IN IF e % 2 = 1 THEN Mul(a, s, m) ELSE s
